@@ -149,4 +149,14 @@ theorem C01_fragment_tokens_preserved (e : Env) (fuel : Nat) (ctx : Ctx) (hctx :
     tokText (best w 0 [⟨0, .brk, d.fam u⟩]) = (specToks n).toList :=
   (routeM_expr e fuel ctx hctx n hx hq d k k' h u w).1
 
+/-- The same inside equations: in a math-mode context, for every expression of the math fragment
+(`inFragM`: attachments, roots, fractions, primes, delimited groups, calls with one- or two-dimensional
+arguments, embedded `#` code of the code fragment …) the rendered layout holds exactly the tree's code
+tokens, at every width and indent unit. -/
+theorem C01_fragment_math_tokens_preserved (e : Env) (fuel : Nat) (ctx : Ctx) (hm : ctx.mode = .math) (n : ANode)
+    (hx : isExpr n = true) (hq : inFragM n = true)
+    (d : Twin.Doc) (k k' : St) (h : ((knot e fuel).expr ctx n).run k = .ok (d, k')) (u w : Nat) :
+    tokText (best w 0 [⟨0, .brk, d.fam u⟩]) = (specToks n).toList :=
+  (routeM_math_expr e fuel ctx hm n hx hq d k k' h u w).1
+
 end Typstyle
